@@ -66,39 +66,87 @@ var verifC08Encodings = []string{"base58", "base64", "base64+zstd", "json", "jso
 
 var verifC08Numbers = []float64{0, 1, 1.5, -1, 431999, 432000, 1e300, 18446744073709551615}
 
-// verifC08Value returns a JSON value of arbitrary dynamic type; strings and numbers come from
-// the given pools (one path per pool member).
-func verifC08Value(name string, strs []string, nums []float64) any {
-	switch verifChoice(name, 6) {
-	case 0:
+// dynamic types of a decoded JSON value
+const (
+	verifC08Null = iota
+	verifC08Number
+	verifC08String
+	verifC08Bool
+	verifC08Obj
+	verifC08List
+	verifC08NumTypes
+)
+
+// verifC08OfType returns a JSON value of dynamic type t; strings and numbers come from the given
+// pools (one path per pool member).
+func verifC08OfType(name string, t int, strs []string, nums []float64) any {
+	switch t {
+	case verifC08Null:
 		return nil
-	case 1:
+	case verifC08Number:
 		return nums[verifChoice(name+".num", len(nums))]
-	case 2:
+	case verifC08String:
 		return strs[verifChoice(name+".str", len(strs))]
-	case 3:
+	case verifC08Bool:
 		return verifChoice(name+".bool", 2) == 1
-	case 4:
+	case verifC08Obj:
 		return map[string]any{"x": 1.0}
 	default:
 		return []any{"x"}
 	}
 }
 
+// verifC08Value returns a JSON value of arbitrary dynamic type.
+func verifC08Value(name string, strs []string, nums []float64) any {
+	return verifC08OfType(name, verifChoice(name, verifC08NumTypes), strs, nums)
+}
+
+// verifC08IllTyped returns a JSON value of any dynamic type except `want`.
+func verifC08IllTyped(name string, want int) any {
+	t := verifChoice(name+".illtyped", verifC08NumTypes-1)
+	if t >= want {
+		t++
+	}
+	return verifC08OfType(name, t, []string{"x"}, []float64{1})
+}
+
+// verifC08Key describes one member of an option object: the dynamic type the parser expects and
+// the pool of well-typed values.
 type verifC08Key struct {
 	name string
+	want int
 	strs []string
 	nums []float64
 }
 
-// verifC08Object returns a JSON object holding any subset of the given member names, each with a
-// value of arbitrary dynamic type.
+// verifC08Object returns a JSON object over the given member names:
+//   - every subset of the members, each present member well-typed with a value from its pool; or
+//   - exactly one member ill-typed (each of the five other dynamic types) and every subset of the
+//     remaining members present with one well-typed representative.
 func verifC08Object(name string, keys []verifC08Key) map[string]any {
 	m := map[string]any{}
-	for _, k := range keys {
-		if verifChoice(name+"."+k.name+".present", 2) == 1 {
-			m[k.name] = verifC08Value(name+"."+k.name, k.strs, k.nums)
+	bad := verifChoice(name+".illtyped-member", len(keys)+1) - 1 // -1: none
+	for i, k := range keys {
+		if i == bad {
+			m[k.name] = verifC08IllTyped(name+"."+k.name, k.want)
+			continue
 		}
+		if verifChoice(name+"."+k.name+".present", 2) == 0 {
+			continue
+		}
+		if bad >= 0 {
+			// representative well-typed value
+			switch k.want {
+			case verifC08Number:
+				m[k.name] = k.nums[0]
+			case verifC08String:
+				m[k.name] = k.strs[0]
+			default:
+				m[k.name] = true
+			}
+			continue
+		}
+		m[k.name] = verifC08OfType(name+"."+k.name, k.want, k.strs, k.nums)
 	}
 	return m
 }
